@@ -420,6 +420,83 @@ func TestVerif_C41(t *testing.T) {
 	})
 	r.Require("soup_inputs", 50000)
 
+	// 3b. layered inputs: the stack of open elements is built layer by layer - table parts, a foreign
+	// root, a foreign element whose local name is the name of an HTML element with special
+	// handling, an integration point, HTML elements in it, a template opened and closed - and
+	// then end tags arrive for elements further down. (Tag soup of the same vocabulary almost
+	// never stacks these in the order in which the insertion modes confuse one another.)
+	layerTable := []string{"table", "tbody", "thead", "tfoot", "tr", "caption", "colgroup", "select", "template", "td"}
+	layerForeignName := []string{"td", "th", "tr", "caption", "table", "tbody", "select", "template", "head", "body", "html", "frameset", "p", "li"}
+	layerIPsvg := []string{"desc", "foreignObject", "title"}
+	layerIPmath := []string{"mi", "mo", "mn", "ms", "mtext", `annotation-xml encoding="text/html"`, `annotation-xml encoding="application/xhtml+xml"`}
+	layerHTML := []string{"div", "p", "b", "span", "a", "font", "li", "td", "table", "form", "nobr", "button"}
+	layerEnd := []string{"table", "tbody", "tfoot", "thead", "tr", "td", "th", "caption", "svg", "math", "template", "select", "p", "body", "html"}
+	r.CasesParallel("layered", 64, 0, func(c *verifrt.Case) {
+		per := r.N(40000, 2000000) / 64
+		for k := 0; k < per; k++ {
+			rng := c.Rng
+			pick := func(xs []string) string { return xs[rng.IntN(len(xs))] }
+			var sb strings.Builder
+			open := func(n string) { sb.WriteString("<" + n + ">") }
+			for i, n := 0, rng.IntN(3); i < n || (i == 0 && rng.IntN(10) < 6); i++ {
+				if i == 0 && n == 0 {
+					open("table")
+					break
+				}
+				open(pick(layerTable))
+			}
+			math := rng.IntN(2) == 0
+			if rng.IntN(10) != 0 {
+				if math {
+					open("math")
+				} else {
+					open("svg")
+				}
+			}
+			if rng.IntN(5) != 0 {
+				open(pick(layerForeignName))
+			}
+			if rng.IntN(5) != 0 {
+				if math {
+					open(pick(layerIPmath))
+				} else {
+					open(pick(layerIPsvg))
+				}
+			}
+			for i, n := 0, rng.IntN(3); i < n; i++ {
+				open(pick(layerHTML))
+			}
+			if rng.IntN(5) != 0 {
+				open("template")
+				for i, n := 0, rng.IntN(3); i < n; i++ {
+					if rng.IntN(2) == 0 {
+						open(pick(layerHTML))
+					} else {
+						sb.WriteString("x")
+					}
+				}
+				if rng.IntN(6) != 0 {
+					sb.WriteString("</template>")
+				}
+			}
+			for i, n := 0, 1+rng.IntN(3); i < n; i++ {
+				sb.WriteString("</" + pick(layerEnd) + ">")
+			}
+			if rng.IntN(3) == 0 {
+				sb.WriteString("y")
+			}
+			ctx := verifCtx{Document: true}
+			if rng.IntN(4) == 0 {
+				ctx = verifFragmentContexts[rng.IntN(len(verifFragmentContexts))]
+			}
+			in := sb.String()
+			c.Describe(map[string]any{"input": in, "ctx": ctx})
+			check(c, []byte(in), ctx, rng.IntN(4) != 0)
+			r.Event("layered_inputs", 1)
+		}
+	})
+	r.Require("layered_inputs", 20000)
+
 	// 4. structural stress
 	r.CasesParallel("stress", r.N(2500, 100000), 0, func(c *verifrt.Case) {
 		g := newVerifGen(c.Rng)
